@@ -67,7 +67,7 @@ class HashTable:
         -------
         Value or None (if no hash table for cached value does not exist)
         '''
-        if self._cache is None:
+        if not self._cache:
             return None
         else:
             hash_value = self._hashingFunction(x, T)
@@ -83,7 +83,7 @@ class HashTable:
         x : float, list[float]
         T : float
         '''
-        if self._cache is not None:
+        if self._cache:
             hash_value = self._hashingFunction(x, T)
             self.cachedData[hash_value] = value
 
